@@ -128,6 +128,20 @@ func runC12(c *core.Ctx) {
 			w.Log[b].Ents = append(w.Log[b].Ents, gen.Ent{Name: pre + "/cheddar/" + suf, Val: gen.Half(4)}, gen.Ent{Name: "tea/with milk and sugar", Val: gen.Half(5)})
 			c.Count("histories_with_colliding_shortened_names", 1)
 		}
+		if i%6 == 1 && len(w.Log) >= 2 {
+			// recipes whose names differ by trailing digits, logged in amounts whose digits complete each other
+			// ("b1" x 25 in one block, "b12" x 5 in another: name and amount written next to each other read the same):
+			// two different foods all the same, whatever was reported before
+			base := gen.Name(r, gen.NameOpts{MinLen: 2, MaxLen: 8})
+			d1, d2, q2 := 1+r.Intn(9), r.Intn(10), 1+r.Intn(9)
+			n1, n2 := fmt.Sprintf("%s%d", base, d1), fmt.Sprintf("%s%d%d", base, d1, d2)
+			w.Book = append(w.Book, gen.Recipe{Name: n1, Ents: []gen.Ent{{Name: w.Basics[0], Val: gen.Half(3)}}}, gen.Recipe{Name: n2, Ents: []gen.Ent{{Name: w.Basics[len(w.Basics)-1], Val: gen.Half(8)}, {Name: "twin-only", Val: gen.Half(2)}}})
+			w.BookText = gen.RenderBook(w.Book, nil)
+			a, b := r.Intn(len(w.Log)), r.Intn(len(w.Log))
+			w.Log[a].Ents = append(w.Log[a].Ents, gen.Ent{Name: n1, Val: gen.N(fmt.Sprintf("%d%d", d2, q2))})
+			w.Log[b].Ents = append(w.Log[b].Ents, gen.Ent{Name: n2, Val: gen.N(fmt.Sprint(q2))})
+			c.Count("histories_with_digit_suffixed_twins", 1)
+		}
 		X := w.Basics[r.Intn(len(w.Basics))]
 		P := "a"
 		if m := alnumRun.FindString(w.Recipes[0]); m != "" {
